@@ -288,8 +288,8 @@ def concurrent(rep, quick):
     rep.add_tlc(r2, "MC_CodegenConc (two definitions sharing one directory: RunsOwnModel must be violated - design hazard)")
     rep.extra["concurrent_design"] = dict(same_definition_holds=bool(r1["machinery_ok"] and not r1["violation"]),
                                           two_definitions_counterexample=bool(r2["violation"]))
-    tasks = [dict(sid="conc[three workers of one checkout: B between A's write and reload]", same=True),
-             dict(sid="conc[two definitions sharing one directory of generated code]", same=False)]
+    tasks = [dict(sid="conc[same-definition|B-between-write-and-reload-of-A]", same=True),
+             dict(sid="conc[two-definitions-sharing-one-directory]", same=False)]
     res = run_tasks("vh.codegendrv:concurrent", tasks, nproc=2, timeout=2400)
     for t, x in zip(tasks, res):
         rep.count()
